@@ -99,6 +99,8 @@ pub fn fill_builder(
     if order % 8 == 7 {
         // start from the Default builder (initial position) and overwrite everything
         let mut bb = BoardBuilder::default();
+        // en passant first: clearing and overwriting squares afterwards must not disturb it
+        bb.en_passant(epf);
         for (i, x) in squares.iter().enumerate() {
             match x {
                 Some((c, k)) => {
@@ -109,7 +111,7 @@ pub fn fill_builder(
                 }
             }
         }
-        bb.side_to_move(col(stm)).castle_rights(Color::White, wr).castle_rights(Color::Black, br).en_passant(epf);
+        bb.side_to_move(col(stm)).castle_rights(Color::White, wr).castle_rights(Color::Black, br);
         return bb;
     }
     if order % 8 == 5 {
